@@ -66,7 +66,7 @@ VH_DRIVER(fault){
       {"s://h/a/","s://h/a/b/c"},{"s:/a/b","s:/c/d/e"},{"s:a/b","s:c"},{"s://h//x","s://h/y"},{"s://h/a/b/","s://h/a/b/"},{"s://g/a","s://h/a"},{"s://u@h:1/a","s://h/a"},{"s://[::1]/a/b","s://[::1]/a/c/d"},{"s://1.2.3.4/","s://1.2.3.4/x/y"}};
     long q=0; for(auto&pr:pairs) for(unsigned md=0;md<2;++md){ if((++q)%2) sweep<ApiA>(2,T(pr[0]),T(pr[1]),md,runs); else sweep<ApiW>(2,T(pr[0]),T(pr[1]),md,runs); } }
   // resolution: dot removal that allocates (a trailing ".." needs a fresh empty segment), the ambiguity fix-up of the merged path
-  { const char* pairs[][2]={{"x/y/..","s://g/a/b"},{"../..","s://g/a/b/c/"},{"/a/b/..","s://g"},{".//x","s:/y"},{"..//x","s:/a/b"},{"a/../..//b","s:/x/y"},{"x/..","s:a"},{"..","s://g/a/b/c"},{"./","s://g/a/b"},{"?q","s://g/a/b/../c"},{"//h2/a/../b/..","s://g"},{"s:a/..//b","t://g/"}};
+  { const char* pairs[][2]={{"g/h","s://g"},{"x/y/z","s:"},{"a/b","s://1.2.3.4"},{"a/b/c","s://[::1]"},{"a/b","s://u@[v1.x]:2"},{"x/y/..","s://g/a/b"},{"../..","s://g/a/b/c/"},{"/a/b/..","s://g"},{".//x","s:/y"},{"..//x","s:/a/b"},{"a/../..//b","s:/x/y"},{"x/..","s:a"},{"..","s://g/a/b/c"},{"./","s://g/a/b"},{"?q","s://g/a/b/../c"},{"//h2/a/../b/..","s://g"},{"s:a/..//b","t://g/"}};
     long q=0; for(auto&pr:pairs) for(unsigned opt=0;opt<2;++opt){ if((++q)%2) sweep<ApiA>(1,T(pr[0]),T(pr[1]),opt,runs); else sweep<ApiW>(1,T(pr[0]),T(pr[1]),opt,runs); } }
   for(const char*q:{"a=b&c=d&e","a","=","a=&=b&&c=%41+%0D%0A","k1=v1&k2=v2&k3=v3&k4"}){ sweep<ApiA>(6,T(q),{},0,runs); sweep<ApiW>(6,T(q),{},0,runs); }
   sweep<ApiA>(7,T("key one"),T("v\r\n"),0,runs); sweep<ApiW>(7,T("k"),T(""),0,runs);
